@@ -158,6 +158,7 @@ def runCmds (pol : Policy) : State → List Cmd → List String
     else (showResult r.2 ++ ";" ++ showPool r.1.pool) :: runCmds pol r.1 rest
 
 def handle : List String → String
+  | ["conc", _, _, _, _] => "ok"   -- concurrency exploration: the Go side evaluates the invariants itself
   | ["run", pol, ch, defs, ops] =>
     match parsePolicy? pol, ch.splitOn ":", (splitList defs ";").mapM parseTx? with
     | some pol, [cm, mtp0], some defs =>
